@@ -114,7 +114,10 @@ class Report:
             groups.setdefault(digest(_jsonable(v.fingerprint)), []).append(v)
         os.makedirs(EVIDENCE_DIR, exist_ok=True)
         replay_paths = []
-        for fpd, vs in groups.items():
+        MAX_GROUPS = 12
+        if len(groups) > MAX_GROUPS:
+            self.notes.append(f'{len(groups)} distinct violation fingerprints; replay files written for the first {MAX_GROUPS}')
+        for fpd, vs in list(groups.items())[:MAX_GROUPS]:
             d = os.path.join(REPLAY_DIR, self.prop)
             os.makedirs(d, exist_ok=True)
             path = os.path.join(d, f'{fpd}.json')
